@@ -49,8 +49,13 @@ func (c *checkSchema) checkType(name string, typ schema.Type, ss map[string]sche
 
 		// Return an error with the full set of bytes of the root schema.
 		if documentError, ok := r.(errors.DocumentError); ok {
-			documentError.SetFile(typ.RootFile())
-			documentError.SetIndex(documentError.Index() + typ.Begin())
+			// The error already points into the file of the lexeme it was found
+			// at. That is not always the file of this type: properties inherited
+			// with "allOf" belong to the file of the parent type.
+			if !documentError.HasFile() {
+				documentError.SetFile(typ.RootFile())
+				documentError.SetIndex(documentError.Index() + typ.Begin())
+			}
 			documentError.SetIncorrectUserType(name)
 			panic(documentError)
 		}
